@@ -190,7 +190,7 @@ def cases(ctx):
             ops.append([op, draw_length(rng, hi) if op == 'length' else draw_spacing(rng)])
         yield {'ctor': str(rng.choice(['dr', 'dk'])), 'L': draw_length(rng, hi), 'sp': draw_spacing(rng), 'ops': ops,
                'arr': str(rng.choice(['rand', 'smooth', 'spike'])), 'aseed': int(rng.integers(0, 2 ** 31)),
-               'rank': int(rng.integers(1, 5))}
+               'rank': int(rng.integers(1, 7))}
 
 
 def make_array(kind, L, rng, x):
@@ -371,7 +371,7 @@ def run_case(ctx, case):
     # ---- MatrixArray versions
     if L <= 1024:
         rank = int(case['rank'])
-        types = list('ABCD')[:rank]
+        types = list('ABCDEF')[:rank]
         data = rng.normal(size=(L, rank, rank))
         data = data + np.transpose(data, (0, 2, 1))
         # a transform attempt that fails (array of another length) must leave flag and data alone
